@@ -80,19 +80,33 @@ namespace lang
             v.size_ = 0;
         }
 
-        constexpr fixed_vector operator=(const fixed_vector& v)
+        constexpr fixed_vector& operator=(const fixed_vector& v)
         {
-            return fixed_vector(v);
+            if (this != &v)
+            {
+                fixed_vector tmp(v);
+                *this = std::move(tmp);
+            }
+            return *this;
         }
 
-        constexpr fixed_vector operator=(fixed_vector&& v)
+        constexpr fixed_vector& operator=(fixed_vector&& v)
         {
-            return fixed_vector(std::move(v));
+            if (this != &v)
+            {
+                size_ = v.size_;
+                capacity_ = v.capacity_;
+                data_ = std::move(v.data_);
+                v.size_ = 0;
+            }
+            return *this;
         }
 
-        constexpr fixed_vector operator=(const std::initializer_list<value_type>& l)
+        constexpr fixed_vector& operator=(const std::initializer_list<value_type>& l)
         {
-            return fixed_vector(l.size(), l);
+            fixed_vector tmp(l.size(), l);
+            *this = std::move(tmp);
+            return *this;
         }
 
         ~fixed_vector() = default;
